@@ -486,6 +486,15 @@ func replayOnce(rs *RunSpec, trace []string) (sigs []string, log []string, err e
 		}
 	}
 	for i, name := range trace {
+		if name == "<export>" {
+			fresh := e.rig.Genesis(e.Sc.Params, e.Sc.Funds, e.Sc.Extra)
+			r := exportPoint(e.rig, e.Sc, s, fresh)
+			for _, vi := range r.viols {
+				sigs = append(sigs, vi.Sig)
+				log = append(log, "    !! "+vi.Sig+" :: "+vi.Detail)
+			}
+			break
+		}
 		var act *Action
 		for _, a := range e.Sc.Enabled(v) {
 			if a.Name == name {
